@@ -2036,3 +2036,27 @@ Proof.
   - intros k j. exact (merge_conserves_lemma (edit q :: rest) q2 H k j).
   - eapply merge_distinct_lemma; eauto.
 Qed.
+
+(* ------------------------------------------------------------------ addresses below the mapping start.
+   The relative address is computed in uint64 arithmetic: a location whose address A lies below the
+   start S of its mapping (typically 0: "no address") has the relative address A - S + 2^64, which is
+   never the relative address A of the frame at S + A.  The two are different frames, whatever else
+   they share, so Merge keeps their weights apart (merge_exact). *)
+Lemma below_start_reladdr : forall S A, 0 <= A < S -> S < two64 ->
+  wrap_u64 (A - S) <> wrap_u64 (S + A - S).
+Proof.
+  intros S A HA HS. unfold wrap_u64. replace (S + A - S) with A by lia.
+  rewrite (Z.mod_small A) by (unfold two64 in *; lia).
+  replace (A - S) with (A - S + two64 + (-1) * two64) by lia. rewrite Z_mod_plus_full.
+  rewrite Z.mod_small by (unfold two64 in *; lia). unfold two64 in *. lia.
+Qed.
+
+Theorem below_start_distinct_lemma : forall p l1 l2 m,
+  lookup_map p (l_mapping l1) = Some m -> l_mapping l2 = l_mapping l1 ->
+  0 <= l_addr l1 < m_start m -> m_start m < two64 -> l_addr l2 = m_start m + l_addr l1 ->
+  frame_ident_of p l1 <> frame_ident_of p l2.
+Proof.
+  intros p l1 l2 m Hm H2 HA HS Ha E. unfold frame_ident_of in E. rewrite H2 in E.
+  injection E as E2 _ _. unfold start_of in E2. rewrite Hm, Ha in E2.
+  exact (below_start_reladdr (m_start m) (l_addr l1) HA HS E2).
+Qed.
